@@ -390,8 +390,9 @@ func multilinePrintableName(info *NodeInfo) string {
 	infoCopy.Name = strings.Replace(infoCopy.Name, "[...]", "[…]", -1)
 	infoCopy.Name = strings.Replace(infoCopy.Name, ".", `\n`, -1)
 	if infoCopy.File != "" {
-		infoCopy.File = filepath.Base(infoCopy.File)
+		infoCopy.File = escapeForDot(filepath.Base(infoCopy.File))
 	}
+	infoCopy.Objfile = escapeForDot(infoCopy.Objfile)
 	return strings.Join(infoCopy.NameComponents(), `\n`) + `\n`
 }
 
